@@ -40,6 +40,12 @@ def still_fails(w) -> bool:
             return variables(back) != variables(res)
         except Exception:  # noqa: BLE001
             return True
+    if kind == "not-applicable":
+        from rules_tierb import make_rule
+
+        root = parser.parse(w["text"]).clone()
+        node = [n for n in nodes_inorder(root) if str(n) == w["node"]][0]
+        return not make_rule(w["rule"]).can_apply_to(node)
     if kind == "layout":
         from layout_tierb import clauses_for
 
